@@ -23,11 +23,12 @@ type SpecDB struct {
 	chanInv      map[string][]*Clause // "pkg.Type.field" -> invariants over v
 	files        []string
 	ghosts       map[string]*Ghost
+	immutable    map[string]bool // type keys ("pkg/path.Type")
 }
 
 func newSpecDB() *SpecDB {
 	return &SpecDB{pkgs: map[string]*PkgContracts{}, byName: map[string]*FuncContract{}, eff: &effectsCache{done: map[*ssa.Function]*EffectSet{}},
-		inlineExtern: map[string]bool{}, chanInv: map[string][]*Clause{}, ghosts: map[string]*Ghost{}}
+		inlineExtern: map[string]bool{}, chanInv: map[string][]*Clause{}, ghosts: map[string]*Ghost{}, immutable: map[string]bool{}}
 }
 
 func readSpecLines(path string) ([]string, error) {
@@ -103,6 +104,20 @@ func (db *SpecDB) loadExterns(dir string) error {
 	return nil
 }
 
+// isImmutableHeap reports whether a heap holds fields of a type declared
+// "immutable" in a contract file.
+func (db *SpecDB) isImmutableHeap(heap string) bool {
+	if !strings.HasPrefix(heap, "|H:") {
+		return false
+	}
+	for t := range db.immutable {
+		if strings.HasPrefix(heap, "|H:"+t+".") {
+			return true
+		}
+	}
+	return false
+}
+
 func (db *SpecDB) ghost(name string) *Ghost {
 	return db.ghosts[name]
 }
@@ -128,6 +143,13 @@ func (g *Ghost) sort() Sort {
 func (db *SpecDB) add(key string, pc *PkgContracts) {
 	for _, g := range pc.Ghosts {
 		db.ghosts[g.Name] = g
+	}
+	for _, t := range pc.Immutable {
+		if strings.Contains(t, "/") || key == "" {
+			db.immutable[t] = true
+		} else {
+			db.immutable[key+"."+t] = true
+		}
 	}
 	for k, v := range pc.ChanInvs {
 		full := k
